@@ -301,8 +301,15 @@ func checkParse(c parseCase) (h.Info, error) {
 		return info, fmt.Errorf("MarshalText = %+q, %v", mt, err)
 	}
 	var m3 bip39.Mnemonic
-	if err := m3.UnmarshalText([]byte(text)); err != nil || strings.Join(m3, "\x00") != strings.Join(m, "\x00") || len(m3) != len(m) {
+	buf := []byte(text)
+	if err := m3.UnmarshalText(buf); err != nil || strings.Join(m3, "\x00") != strings.Join(m, "\x00") || len(m3) != len(m) {
 		return info, fmt.Errorf("UnmarshalText(%+q) = %+q, %v", text, []string(m3), err)
+	}
+	for i := range buf { // the caller reuses its buffer
+		buf[i] = 'x'
+	}
+	if strings.Join(m3, "\x00") != strings.Join(m, "\x00") {
+		return info, fmt.Errorf("the sentence parsed by UnmarshalText(%+q) changed to %+q when the caller overwrote its input buffer", text, []string(m3))
 	}
 	return info, nil
 }
